@@ -165,7 +165,9 @@ pub enum PeerEv {
     Rx { t: u64, order: u64, worder: u64, src: u16, dest: u16, bytes: Vec<u8>, session: u32 },
     /// application fragment sent to the master; `valid` = it is the correct answer a compliant master must accept
     Tx { t: u64, order: u64, src: u16, bytes: Vec<u8>, kind: String, valid: bool, answers: Option<u64>, session: u32 },
-    LinkRx { t: u64, order: u64, frame: RefFrame },
+    LinkRx { t: u64, order: u64, worder: u64, frame: RefFrame },
+    /// link status reply sent by outstation `src` (t = time it was sent)
+    LinkTx { t: u64, order: u64, src: u16 },
     Connected { t: u64, order: u64, session: u32 },
     Closed { t: u64, order: u64, session: u32 },
     /// a delayed transmission: written at t, visible to the master at `at`
@@ -931,9 +933,11 @@ pub async fn peer_task(peer: Peer, net: SimNetwork) {
             let frags = p.link.poll(&ready);
             // link-level requests
             let new_links: Vec<(u64, RefFrame)> = p.link.link_frames[before_links..].to_vec();
-            for (_, f) in new_links {
+            let new_orders: Vec<u64> = p.link.link_frame_orders[before_links..].to_vec();
+            for (k, (_, f)) in new_links.into_iter().enumerate() {
                 let (t, order) = order_now();
-                p.log(PeerEv::LinkRx { t, order, frame: f.clone() });
+                let worder = new_orders.get(k).copied().unwrap_or(order);
+                p.log(PeerEv::LinkRx { t, order, worder, frame: f.clone() });
                 if f.ctrl & 0x4F == 0x49 {
                     // REQUEST_LINK_STATUS
                     if let Some(o) = p.outstations.iter().find(|o| o.address == f.dest) {
@@ -941,7 +945,12 @@ pub async fn peer_task(peer: Peer, net: SimNetwork) {
                             let wire = p.link.encode_link_status_response(f.dest, f.src);
                             if let Some((to_client, _)) = p.conn.clone() {
                                 let lat = to_client.lock().unwrap().latency_ms;
-                                io::chan_push(&to_client, now + lat, wire);
+                                // the stream preserves order: the reply queues behind an earlier (delayed) transmission
+                                let due = (now + lat).max(p.last_delivery_ms);
+                                p.last_delivery_ms = due;
+                                io::chan_push(&to_client, due, wire);
+                                let (_, order) = order_now();
+                                p.log(PeerEv::LinkTx { t: due - lat, order, src: f.dest });
                             }
                         }
                     }
@@ -977,6 +986,10 @@ pub struct MastRun {
     /// fragments in the order and at the moments the master's transport reader handed them to its application layer (hook H5):
     /// (virtual ms, order, link source, octets)
     pub master_rx: Vec<(u64, u64, u16, Vec<u8>)>,
+    /// poll operations that took effect: (script index, add / demand / remove, association, classes, period ms)
+    pub poll_ops: Vec<(usize, &'static str, u16, u8, u64)>,
+    /// executor polls of the master task, and of all tasks
+    pub master_polls: u64,
     /// reply policies still queued in the scripted outstations at the end of the run
     pub leftover_replies: usize,
     /// when the scripted outstation last answered with anything but the faithful response
@@ -1108,6 +1121,8 @@ pub async fn drive(sim: &Sim, case: &SmastCase) -> MastRun {
     let mut op_marks = Vec::new();
     let mut next_user_id = 0u64;
     let mut user_kinds: Vec<(u64, u16, UserKind)> = Vec::new();
+    let mut poll_keys: Vec<(u16, u8, u64)> = Vec::new();
+    let mut poll_ops: Vec<(usize, &'static str, u16, u8, u64)> = Vec::new();
 
     for (i, op) in case.script.iter().enumerate() {
         op_marks.push((i, sim.now_ms(), sim.core().next_order()));
@@ -1125,6 +1140,7 @@ pub async fn drive(sim: &Sim, case: &SmastCase) -> MastRun {
             MOp::AddPoll { assoc, classes, period_ms } => {
                 if let Some(h) = node.assocs.get(*assoc % node.assocs.len().max(1)) {
                     let mut h = h.clone();
+                    let h2_addr = h.address().raw_value();
                     let slot: Arc<Mutex<Option<crate::master::PollHandle>>> = Arc::new(Mutex::new(None));
                     let s2 = slot.clone();
                     let req = ReadRequest::class_scan(classes_of(*classes));
@@ -1138,12 +1154,16 @@ pub async fn drive(sim: &Sim, case: &SmastCase) -> MastRun {
                     let added = slot.lock().unwrap().take();
                     if let Some(p) = added {
                         polls.push(p);
+                        poll_keys.push((h2_addr, *classes, *period_ms));
+                        poll_ops.push((i, "add", h2_addr, *classes, *period_ms));
                     }
                 }
             }
             MOp::DemandPoll(k) => {
                 if !polls.is_empty() {
                     let mut p = polls[*k % polls.len()].clone();
+                    let key = poll_keys[*k % polls.len()];
+                    poll_ops.push((i, "demand", key.0, key.1, key.2));
                     sim.spawn("demand-poll", async move {
                         let _ = p.demand().await;
                     });
@@ -1151,7 +1171,9 @@ pub async fn drive(sim: &Sim, case: &SmastCase) -> MastRun {
             }
             MOp::RemovePoll(k) => {
                 if !polls.is_empty() {
+                    let key = poll_keys.remove(*k % polls.len());
                     let p = polls.remove(*k % polls.len());
+                    poll_ops.push((i, "remove", key.0, key.1, key.2));
                     sim.spawn("remove-poll", async move {
                         let _ = p.remove().await;
                     });
@@ -1296,6 +1318,8 @@ pub async fn drive(sim: &Sim, case: &SmastCase) -> MastRun {
         end_ms,
         user_kinds,
         leftover_replies,
+        poll_ops,
+        master_polls: sim.task_polls(node.task),
         last_deviation_ms: peer.lock().unwrap().last_deviation_ms,
         master_rx: sim.core().popped.borrow().clone(),
         stuck_indications: Vec::new(),
